@@ -92,7 +92,7 @@ def make_term(ci):
     return None
 
 
-NPOS = 12
+NPOS = 15
 
 
 def place(pos, d, term):
@@ -125,6 +125,13 @@ def place(pos, d, term):
         return base.select(z).orderby(term)
     if pos == 11:
         return base.select(Case().when(term, 1).else_(0))
+    u = Table("u")
+    if pos == 12:  # WHERE operand of an UPDATE ... FROM
+        return Q.update(t).set("x", 1).from_(u).where(z == term)
+    if pos == 13:  # ORDER BY of an UPDATE ... FROM (rendered by the MySQL / PostgreSQL / SQLite builders)
+        return Q.update(t).set("x", 1).from_(u).where(z == 1).orderby(term)
+    if pos == 14:  # ON criterion of an UPDATE ... JOIN
+        return Q.update(t).join(u).on(z == term).set("x", 1)
     raise AssertionError(pos)
 
 
@@ -179,12 +186,12 @@ def pin(v, n):
     timeout={"quick": 120, "thorough": 300},
     witness=[dict(ci=[c.__name__ for _, c in CLASSES].index("Field"), pos=0, d=2),
              dict(ci=[c.__name__ for _, c in CLASSES].index("ArithmeticExpression"), pos=3, d=1)],
-    doc="every Term subclass of the live package x 12 positions (select list = defining; 11 operand positions) x 6 dialect "
+    doc="every Term subclass of the live package x 15 positions (select list = defining; 14 operand positions incl. UPDATE..FROM / UPDATE..JOIN clauses) x 6 dialect "
         "classes, alias 'al': defining => alias appended once right after the term; operand => no trace of the alias",
 )
 def c12_positions(ci: int, pos: int, d: int) -> int:
     """
-    bound: 0 <= pos <= 11 and 0 <= d <= 5
+    bound: 0 <= pos <= 14 and 0 <= d <= 5
     """
     pos, d = pin(pos, NPOS), pin(d, 6)
     with _NoTracing():
@@ -220,15 +227,17 @@ def c12_symbolic_alias(k: int, pos: int, d: int, alias: str) -> int:
     cubes={"d": range(ND)},
     bounds={"quick": {}, "thorough": {}},
     timeout={"quick": 120, "thorough": 300},
-    witness=[dict(d=4, kind=1, in_select=True, clause=0, setop=False), dict(d=5, kind=0, in_select=True, clause=0, setop=True)],
+    witness=[dict(d=4, kind=1, in_select=True, clause=0, setop=False, other_case=False),
+             dict(d=5, kind=0, in_select=True, clause=0, setop=True, other_case=False),
+             dict(d=2, kind=2, in_select=True, clause=1, setop=False, other_case=True)],
     doc="GROUP BY / ORDER BY referring to an aliased term: the alias is written only if the select list defines it (and the "
         "dialect allows GROUP BY aliases), otherwise the full expression, never with an alias suffix",
 )
-def c12_references(d: int, kind: int, in_select: bool, clause: int, setop: bool) -> int:
+def c12_references(d: int, kind: int, in_select: bool, clause: int, setop: bool, other_case: bool) -> int:
     """
     bound: 0 <= kind <= 3 and 0 <= clause <= 1
     """
-    kind, clause, in_select, setop = pin(kind, 4), pin(clause, 2), bool(in_select), bool(setop)
+    kind, clause, in_select, setop, other_case = pin(kind, 4), pin(clause, 2), bool(in_select), bool(setop), bool(other_case)
     with _NoTracing():
         t = Table("t")
         if kind == 0:
@@ -243,7 +252,8 @@ def c12_references(d: int, kind: int, in_select: bool, clause: int, setop: bool)
         al = term.as_("al")
         q = QS[d].from_(t).select(Field("z"))
         if in_select:
-            q = q.select(al)
+            # other_case: the select list defines "AL"; the GROUP BY / ORDER BY term is aliased "al" - a different name
+            q = q.select(term.as_("AL") if other_case else al)
         q = q.groupby(al) if clause == 0 else q.orderby(al)
         if setop:
             # as the first operand of a set operation rendered through str() (which starts from the default context)
@@ -259,11 +269,12 @@ def c12_references(d: int, kind: int, in_select: bool, clause: int, setop: bool)
             if d != 1 and tail.endswith(")"):  # (MySQL does not bracket set-operation operands)
                 tail = tail[:-1]
         aq = aqchar(d)
-        if in_select and not (clause == 0 and d in (4, 5)):
+        if in_select and not other_case and not (clause == 0 and d in (4, 5)):
             want = [aq + "al" + aq, expr]  # alias reference (or, harmlessly, the full expression)
         else:
             want = [expr]
         note("sql", sql)
         note("clause_text", tail)
         note("accepted", want)
-    return verdict(tail in want, "c12_references", d=d, kind=kind, in_select=in_select, clause=clause, setop=setop)
+    return verdict(tail in want, "c12_references", d=d, kind=kind, in_select=in_select, clause=clause, setop=setop,
+                   other_case=other_case)
